@@ -44,7 +44,7 @@ ASSUMPTIONS = [
 ]
 BUDGET = {
     "quick": dict(cases=420, shards=4, timeout=600),
-    "thorough": dict(cases=5040, shards=16, timeout=3000),
+    "thorough": dict(cases=3360, shards=16, timeout=3000),
 }
 _EP = ["write_trn", "read_trn", "read_trn_iter", "write_ctm", "read_ctm", "write_textgrid", "read_textgrid",
        "transcript_to_token", "token_to_transcript"]
@@ -76,12 +76,12 @@ FLOORS = {
         "distinct": 800,
     },
     "thorough": {
-        "events": dict({e: 10000 for e in _EP}, **{"read_trn:workers": 3000, "hook:worker_items": 15000,
-                                                   "assert:workers:equal-serial": 3000}),
-        "classes": dict({c: 2000 for c in set(G.CLASSES)}, **{k: 20 * v for k, v in _HOSTILE.items()}),
-        "stats": {"mp_completed": 3000, "mp_log_complete": 3000, "mp_out_of_order": 200},
+        "events": dict({e: 10000 for e in _EP}, **{"read_trn:workers": 2500, "hook:worker_items": 12000,
+                                                   "assert:workers:equal-serial": 2500}),
+        "classes": dict({c: 1200 for c in set(G.CLASSES)}, **{k: 16 * v for k, v in _HOSTILE.items()}),
+        "stats": {"mp_completed": 2500, "mp_log_complete": 2500, "mp_out_of_order": 200},
         "sets": {"completion_orders": 200, "mp_configs": 9},
-        "distinct": 40000,
+        "distinct": 30000,
     },
 }
 CLASSES = G.CLASSES
@@ -217,21 +217,37 @@ def _exec_trn(case, mon, tmp):
     serial = mon.lib("read_trn", D.read_trn, src, False, 0)
     mon.check(serial == Tr, "roundtrip:trn", observed=serial, expected=Tr, note="blank lines inserted")
     k, c = mp["processes"], mp["chunk_size"]
-    fh = open(src) if mp["via"] == "file" else None
-    try:
-        target = fh if fh is not None else src
+    def call():
+        # not through mon.lib: what comes out of an interrupted pool is judged below
+        if mp["via"] == "file":
+            with open(src) as fh:
+                return D.read_trn(fh, False, k, c)
+        return D.read_trn(src, False, k, c)
+
+    par = log = None
+    for attempt in (0, 1):
+        mon.ev("read_trn:workers")
         try:
-            par, log = MP.observed_call(
-                lambda: mon.lib("read_trn:workers", D.read_trn, target, False, k, c),
-                lines, delays, os.path.join(tmp, "workers.log"))
+            par, log = MP.observed_call(call, lines, delays, os.path.join(tmp, "workers.log"))
+            break
         except MP.PoolHang as e:
-            mon.stat("mp_hang")
-            mon.notes.append("C11: %s (k=%d c=%d)" % (e, k, c))
-            mon.trivial()
-            return
-    finally:
-        if fh is not None:
-            fh.close()
+            # liveness is not part of C11; a pool never ends when the OS kills one of its workers.
+            # One retry with a fresh pool; a second stall makes the run inconclusive (see post()).
+            mon.notes.append("C11: %s (k=%d c=%d attempt=%d, workers killed by signal: %s)" % (e, k, c, attempt, e.deaths))
+            mon.stat("mp_stall")
+            if e.deaths:
+                mon.stat("mp_stall_with_killed_worker")
+            if attempt == 1:
+                mon.stat("mp_hang")
+                mon.trivial()
+                return
+        except Exception as e:
+            import traceback
+
+            mon.fail("raised:read_trn:workers", exception=type(e).__name__, message=str(e)[:500],
+                     traceback=traceback.format_exc(limit=-6), processes=k, chunk_size=c)
+    if attempt:
+        mon.stat("mp_completed_on_retry")
     mon.stat("mp_completed")
     mon.observe("mp_configs", "k=%d,c=%d" % (k, c))
     mon.check(par == serial, "workers:equal-serial", observed=par, expected=serial, processes=k, chunk_size=c,
@@ -349,6 +365,10 @@ def _tg_body(case, mon, tmp, holder):
         mon.trivial()
         mon.lib("write_textgrid", D.write_textgrid, tr, os.path.join(tmp, "e.TextGrid"), documented=(ValueError,))
         mon.fail("empty-transcript-accepted", note="documented: transcript must be non-empty")
+    if any(a[2] > b[1] or (a[1], a[2]) > (b[1], b[2]) for a, b in zip(tr, tr[1:])) or any(s > e for _, s, e in tr):
+        # not a tier (entries overlap or are out of time order): the reader's ordering is then unspecified
+        mon.ood("tg_not_a_tier")
+        return
     kw = {}
     p = config.DEFT_FLOAT_PRINT_PRECISION
     if not case["default_precision"]:
